@@ -64,6 +64,7 @@ Definition int63n (fuel : nat) (n : Z) (ds : list Z) : option (Z * list Z) :=
     int63n_loop fuel n mx ds.
 
 Lemma M32_pos : 0 < M32. Proof. reflexivity. Qed.
+Global Opaque M32.
 
 Lemma mulshift_range v n : 0 <= v < M32 -> 0 < n -> 0 <= (v * n) / M32 < n.
 Proof.
@@ -77,7 +78,7 @@ Lemma int31n_loop_range fuel n thresh : forall ds v ds',
   draws_ok ds -> 0 < n -> int31n_loop fuel n thresh ds = Some (v, ds') -> 0 <= v < n /\ draws_ok ds'.
 Proof.
   induction fuel as [|f IH]; intros ds v ds' Hok Hn H; [discriminate|].
-  simpl in H. destruct ds as [|d ds0]; [discriminate|]. simpl in H. inversion Hok; subst.
+  cbn [int31n_loop] in H. destruct ds as [|d ds0]; [discriminate|]. cbn [uint32] in H. inversion Hok; subst.
   destruct (d * n mod M32 <? thresh).
   - eapply IH; eauto.
   - inversion H; subst. split; auto. now apply mulshift_range.
@@ -86,7 +87,7 @@ Qed.
 Theorem int31n_range fuel n ds v ds' :
   draws_ok ds -> 0 < n -> int31n fuel n ds = Some (v, ds') -> 0 <= v < n /\ draws_ok ds'.
 Proof.
-  intros Hok Hn H. unfold int31n in H. destruct ds as [|d ds0]; [discriminate|]. simpl in H.
+  intros Hok Hn H. unfold int31n in H. destruct ds as [|d ds0]; [discriminate|]. cbn [uint32] in H.
   inversion Hok; subst.
   destruct (d * n mod M32 <? n).
   - destruct (d * n mod M32 <? (M32 - n) mod n).
@@ -98,8 +99,23 @@ Qed.
 Theorem uint32n_range n ds v ds' :
   draws_ok ds -> 0 < n -> uint32n n ds = Some (v, ds') -> 0 <= v < n.
 Proof.
-  intros Hok Hn H. unfold uint32n in H. destruct ds as [|d ds0]; [discriminate|]. simpl in H.
+  intros Hok Hn H. unfold uint32n in H. destruct ds as [|d ds0]; [discriminate|]. cbn [uint32] in H.
   inversion Hok; subst. inversion H; subst. now apply mulshift_range.
+Qed.
+
+Lemma land_disjoint a b : Z.land (Z.ldiff a b) (Z.land a b) = 0.
+Proof.
+  apply Z.bits_inj'. intros k Hk. rewrite !Z.land_spec, Z.ldiff_spec, Z.bits_0.
+  destruct (Z.testbit a k), (Z.testbit b k); reflexivity.
+Qed.
+
+Lemma land_le_l a b : 0 <= a -> Z.land a b <= a.
+Proof.
+  intros Ha.
+  assert (E : a = Z.ldiff a b + Z.land a b).
+  { rewrite <- (Z.lor_ldiff_and a b) at 1. rewrite <- Z.lxor_lor by apply land_disjoint.
+    symmetry. apply Z.add_nocarry_lxor. apply land_disjoint. }
+  assert (0 <= Z.ldiff a b) by (apply Z.ldiff_nonneg; auto). lia.
 Qed.
 
 Lemma int63_range ds v ds' : int63 ds = Some (v, ds') -> 0 <= v < 2 ^ 63.
@@ -112,7 +128,7 @@ Lemma int63n_loop_range fuel n mx : forall ds v ds',
   0 < n -> int63n_loop fuel n mx ds = Some (v, ds') -> 0 <= v < n.
 Proof.
   induction fuel as [|f IH]; intros ds v ds' Hn H; [discriminate|].
-  simpl in H. destruct (int63 ds) as [[u ds0]|] eqn:E; [|discriminate].
+  cbn [int63n_loop] in H. destruct (int63 ds) as [[u ds0]|] eqn:E; [|discriminate].
   destruct (mx <? u); [eauto|]. inversion H; subst. apply Z.mod_pos_bound. lia.
 Qed.
 
@@ -125,14 +141,7 @@ Proof.
     split; [apply Z.land_nonneg; lia|].
     (* land u (n-1) <= n-1 *)
     assert (Z.land u (n - 1) <= n - 1); [|lia].
-    pose proof (Z.land_nonneg u (n - 1)).
-    destruct (Z_lt_le_dec (n - 1) (Z.land u (n - 1))) as [Hgt|]; [|lia]. exfalso.
-    (* land never exceeds either argument when both are non-negative *)
-    assert (Hle : Z.land u (n - 1) <= n - 1).
-    { rewrite Z.land_comm. apply Z.le_ngt. intros Hc.
-      assert (Hb : 0 <= n - 1) by lia.
-      pose proof (Z.land_le (n - 1) u Hb). lia. }
-    lia.
+    rewrite Z.land_comm. apply land_le_l. lia.
   - eapply int63n_loop_range; eauto.
 Qed.
 
@@ -151,3 +160,7 @@ Fixpoint perm_loop (i : nat) (js : list nat) (m : list nat) : list nat :=
     let m1 := upd m i (nth j m 0%nat) in
     perm_loop (S i) js' (upd m1 j i)
   end.
+
+Print Assumptions int31n_range.
+Print Assumptions uint32n_range.
+Print Assumptions int63n_range.
